@@ -3,7 +3,7 @@ from contextlib import contextmanager
 from typing import Type, Tuple, Dict, Set
 
 from yaml import SafeLoader, BaseLoader
-from yaml.nodes import MappingNode, SequenceNode
+from yaml.nodes import SequenceNode
 from entrypoints import get_group_all as get_entrypoints
 from toposort import toposort_flatten
 
@@ -25,16 +25,12 @@ class COBalDLoader(SafeLoader):
         # looking at their tags: reject here what is rejected at any other position
         for key_node, value_node in node.value:
             if key_node.tag == "tag:yaml.org,2002:merge":
-                merged = (
-                    value_node.value
-                    if isinstance(value_node, SequenceNode)
-                    else [value_node]
-                )
+                # the value itself, and each of its elements if it is a list of mappings
+                merged = [value_node]
+                if isinstance(value_node, SequenceNode):
+                    merged = [value_node, *value_node.value]
                 for merged_node in merged:
-                    if (
-                        isinstance(merged_node, MappingNode)
-                        and merged_node.tag not in self.yaml_constructors
-                    ):
+                    if merged_node.tag not in self.yaml_constructors:
                         self.construct_undefined(merged_node)
         super().flatten_mapping(node)
 
